@@ -482,6 +482,10 @@ Section Ser.
         match v with
         | PNone => None
         | _ =>
+            (* a member of an enum class with a mixed-in primitive type also satisfies the Number/String options
+               (it IS an int/str/float): which option wins is not modelled *)
+            if match v with PEnum c _ _ => match eo_mixin (ei c) with MixNone => false | _ => true end | _ => false end
+            then None else
             (fix first (gs : list field) : option pyval :=
                match gs with
                | [] => None
